@@ -1,7 +1,241 @@
 import Cherab.Drv.Proto
-open Cherab.Drv
+import Cherab.Model.Rates
+import Cherab.Gen.OpenAdasPolicy
+open Cherab.Drv Cherab.Rates
 
-/-- C07 driver: not yet implemented (echo) -/
+/-!
+C07 driver.  The model functions of `Cherab/Model/Rates.lean` at `Float`.
+
+External functions supplied here:
+* `logc` (NumPy's vectorised `log10` in the constructors): the harness sends, for every axis knot, the value NumPy
+  computed; other values (table entries) fall back to libm's `log10`;
+* `loge` (libm `log10` in `evaluate`): the harness sends libm's value for every evaluation argument;
+* `pow10 x = pow(10, x)`;
+* the interpolants: *multilinear* interpolation through the knots, 'nearest' = clamp, 'linear'/'quadratic' = linear
+  continuation of the end cells, 'none' = raise outside the knot range.  They satisfy the contract `ExtSpec` of
+  `Props/C07.lean` (through the knots; raise outside iff 'none'); values between knots are not compared with raysect's
+  cubic by the harness.
+-/
+
+abbrev Assoc := List (Float × Float)
+
+def lookupOr (t : Assoc) (f : Float → Float) (x : Float) : Float :=
+  match t.find? (fun p => p.1 == x) with
+  | some p => p.2
+  | none => f x
+
+def lerp (a b t : Float) : Float := if t == 0.0 then a else if t == 1.0 then b else a + (b - a) * t
+
+/-- cell index and local coordinate of `p` on the axis `xs` (size ≥ 2); `none` = raise -/
+def coord (k : Extrap) (xs : Array Float) (p : Float) : Option (Nat × Float) :=
+  let n := xs.size
+  if n < 2 then none else
+  let lo := xs[0]!
+  let hi := xs[n - 1]!
+  if p < lo then
+    match k with
+    | Extrap.none => none
+    | Extrap.nearest => some (0, 0.0)
+    | _ => some (0, (p - lo) / (xs[1]! - lo))
+  else if p > hi then
+    match k with
+    | Extrap.none => none
+    | Extrap.nearest => some (n - 2, 1.0)
+    | _ => some (n - 2, (p - xs[n - 2]!) / (hi - xs[n - 2]!))
+  else
+    -- last i ≤ n-2 with xs[i] ≤ p
+    let i := (List.range (n - 1)).foldl (fun acc j => if xs[j]! ≤ p then j else acc) 0
+    some (i, (p - xs[i]!) / (xs[i + 1]! - xs[i]!))
+
+def at1 (f : List Float) (i : Nat) : Float := f.getD i 0.0
+def at2 (f : List (List Float)) (i j : Nat) : Float := (f.getD i []).getD j 0.0
+def at3 (f : List (List (List Float))) (i j l : Nat) : Float := ((f.getD i []).getD j []).getD l 0.0
+
+def fi1 (k : Extrap) (xs fs : List Float) (p : Float) : Option Float :=
+  match coord k xs.toArray p with
+  | none => none
+  | some (i, t) => some (lerp (at1 fs i) (at1 fs (i + 1)) t)
+
+def fi2 (k : Extrap) (xs ys : List Float) (f : List (List Float)) (p q : Float) : Option Float :=
+  match coord k xs.toArray p, coord k ys.toArray q with
+  | some (i, t), some (j, u) =>
+    some (lerp (lerp (at2 f i j) (at2 f i (j + 1)) u) (lerp (at2 f (i + 1) j) (at2 f (i + 1) (j + 1)) u) t)
+  | _, _ => none
+
+def fi3 (k : Extrap) (xs ys zs : List Float) (f : List (List (List Float))) (p q r : Float) : Option Float :=
+  match coord k xs.toArray p, coord k ys.toArray q, coord k zs.toArray r with
+  | some (i, t), some (j, u), some (l, w) =>
+    let g := fun (a b : Nat) => lerp (at3 f a b l) (at3 f a b (l + 1)) w
+    some (lerp (lerp (g i j) (g i (j + 1)) u) (lerp (g (i + 1) j) (g (i + 1) (j + 1)) u) t)
+  | _, _, _ => none
+
+def mkExt (knots evals : Assoc) : Ext Float :=
+  { logc := lookupOr knots Float.log10
+    loge := lookupOr evals Float.log10
+    pow10 := fun x => Float.pow 10.0 x
+    i1 := fi1, i2 := fi2, i3 := fi3 }
+
+def showOut : Out Float → String
+  | Out.val v => "v:" ++ fF v
+  | Out.valueError => "VE"
+  | Out.ctorError => "CT"
+
+/-- token stream reader -/
+structure Rd where
+  ts : List String
+
+def Rd.f (r : Rd) : Float × Rd := match r.ts with
+  | t :: rest => (pF t, ⟨rest⟩)
+  | [] => (0.0, r)
+def Rd.n (r : Rd) : Nat × Rd := match r.ts with
+  | t :: rest => (pN t, ⟨rest⟩)
+  | [] => (0, r)
+def Rd.s (r : Rd) : String × Rd := match r.ts with
+  | t :: rest => (t, ⟨rest⟩)
+  | [] => ("", r)
+def Rd.fs (r : Rd) (k : Nat) : List Float × Rd := ((r.ts.take k).map pF, ⟨r.ts.drop k⟩)
+def Rd.ss (r : Rd) (k : Nat) : List String × Rd := (r.ts.take k, ⟨r.ts.drop k⟩)
+
+def chunks (k : Nat) : Nat → List Float → List (List Float)
+  | 0, _ => []
+  | n + 1, l => l.take k :: chunks k n (l.drop k)
+
+/-- an axis: `n`, then the `n` knots, then NumPy's log10 of each -/
+def Rd.axis (r : Rd) : List Float × Assoc × Rd :=
+  let (n, r) := r.n
+  let (xs, r) := r.fs n
+  let (ls, r) := r.fs n
+  (xs, xs.zip ls, r)
+
+def modelOf (cls : String) : Option RateClassModel := modelled.find? (·.name == cls)
+
+def extrapAt (m : RateClassModel) (i : Nat) : Extrap :=
+  match m.extrap[i]? with
+  | some p => extrapOfString p.2
+  | none => Extrap.none
+
+/-- evaluation points: `K` then `K` groups of `arity` (argument, libm log10 of it) pairs -/
+def Rd.points (r : Rd) (arity : Nat) : List (List Float) × Assoc × Rd :=
+  let (k, r) := r.n
+  let (raw, r) := r.fs (2 * arity * k)
+  let groups := chunks (2 * arity) k raw
+  let pts := groups.map fun g => (List.range arity).map fun i => g.getD (2 * i) 0.0
+  let ev := groups.flatMap fun g => (List.range arity).map fun i => (g.getD (2 * i) 0.0, g.getD (2 * i + 1) 0.0)
+  (pts, ev, r)
+
+def wlOpt (photon : Bool) (wl : Float) : Option Float := if photon then some wl else none
+
+def runRate (ts : List String) : String :=
+  let r : Rd := ⟨ts⟩
+  let (cls, r) := r.s
+  match modelOf cls with
+  | none => "unknown-class"
+  | some m =>
+    let (ex, r) := r.n
+    let ex := ex == 1
+    let (wl, r) := r.f
+    let (cf, r) := r.f
+    match m.shape with
+    | Shape.grid2 =>
+      let (ne, k1, r) := r.axis
+      let (te, k2, r) := r.axis
+      let (rate, r) := r.fs (ne.length * te.length)
+      let (pts, ev, _) := r.points 2
+      let E := mkExt (k1 ++ k2) ev
+      let t : Table2 Float := ⟨ne, te, chunks te.length ne.length rate⟩
+      " ".intercalate (pts.map fun p =>
+        showOut (grid2 E cf (wlOpt m.photon wl) (extrapAt m 0) ex t (p.getD 0 0.0) (p.getD 1 0.0)))
+    | Shape.grid3 =>
+      let (ne, k1, r) := r.axis
+      let (te, k2, r) := r.axis
+      let (td, k3, r) := r.axis
+      let (rate, r) := r.fs (ne.length * te.length * td.length)
+      let (pts, ev, _) := r.points 3
+      let E := mkExt (k1 ++ k2 ++ k3) ev
+      let planes := chunks (te.length * td.length) ne.length rate
+      let t : Table3 Float := ⟨ne, te, td, planes.map fun pl => chunks td.length te.length pl⟩
+      " ".intercalate (pts.map fun p =>
+        showOut (grid3 E cf wl ex t (p.getD 0 0.0) (p.getD 1 0.0) (p.getD 2 0.0)))
+    | Shape.beam =>
+      let (e, k1, r) := r.axis
+      let (n, k2, r) := r.axis
+      let (t, k3, r) := r.axis
+      let (sen, r) := r.fs (e.length * n.length)
+      let (st, r) := r.fs t.length
+      let (sref, r) := r.f
+      let (pts, ev, _) := r.points 3
+      let E := mkExt (k1 ++ k2 ++ k3) ev
+      let b : BeamTable Float := ⟨e, n, t, chunks n.length e.length sen, st, sref⟩
+      " ".intercalate (pts.map fun p =>
+        showOut (beam E cf (wlOpt m.photon wl) ex b (p.getD 0 0.0) (p.getD 1 0.0) (p.getD 2 0.0)))
+    | Shape.beamCX =>
+      let (eb, k1, r) := r.axis
+      let (ti, _, r) := r.axis
+      let (ni, _, r) := r.axis
+      let (z, _, r) := r.axis
+      let (b, _, r) := r.axis
+      let (qeb, r) := r.fs eb.length
+      let (qti, r) := r.fs ti.length
+      let (qni, r) := r.fs ni.length
+      let (qz, r) := r.fs z.length
+      let (qb, r) := r.fs b.length
+      let (qref, r) := r.f
+      let (pts, ev, _) := r.points 5
+      let E := mkExt k1 ev
+      let c : CXTable Float := ⟨eb, ti, ni, z, b, qeb, qti, qni, qz, qb, qref⟩
+      " ".intercalate (pts.map fun p =>
+        showOut (beamCX E cf wl ex c (p.getD 0 0.0) (p.getD 1 0.0) (p.getD 2 0.0) (p.getD 3 0.0) (p.getD 4 0.0)))
+
+/-- `pol <accessor> <null> <fallback> <nsp> {param sym elemSym iso}* <nstored> {<len> sym*}* <nwl> sym*` -/
+def runPolicy (ts : List String) : String :=
+  let r : Rd := ⟨ts⟩
+  let (name, r) := r.s
+  match Cherab.Gen.OpenAdasPolicy.accessors.find? (·.name == name) with
+  | none => "unknown-accessor"
+  | some a =>
+    let (nl, r) := r.n
+    let (fb, r) := r.n
+    let (nsp, r) := r.n
+    let (sp, r) := (List.range nsp).foldl (fun (acc : List Policy.Sp × Rd) _ =>
+      let (q, r) := acc.2.ss 4
+      (acc.1 ++ [⟨q.getD 0 "", q.getD 1 "", q.getD 2 "", q.getD 3 "" == "1"⟩], r)) ([], r)
+    let (nst, r) := r.n
+    let (stored, r) := (List.range nst).foldl (fun (acc : List (List String) × Rd) _ =>
+      let (len, r) := acc.2.n
+      let (key, r) := r.ss len
+      (acc.1 ++ [key], r)) ([], r)
+    let (nwl, r) := r.n
+    let (wls, _) := r.ss nwl
+    let c : Policy.Call := ⟨sp, stored, wls, nl == 1, fb == 1⟩
+    match Policy.run Cherab.Gen.OpenAdasPolicy.nullSigs Cherab.Gen.OpenAdasPolicy.wavelengthPolicy a c with
+    | Policy.Result.raises e => "raises:" ++ e
+    | Policy.Result.null l => "null:" ++ fB l
+    | Policy.Result.rate key wl l => "rate:" ++ ",".intercalate key ++ ":" ++ wl.getD "-" ++ ":" ++ fB l
+    | Policy.Result.unknown => "unknown"
+
+/-- `wl <fallback> <param> <sym> <elemSym> <iso> <nwl> sym*` : `OpenADAS.wavelength` itself -/
+def runWavelength (ts : List String) : String :=
+  let r : Rd := ⟨ts⟩
+  let (fb, r) := r.n
+  let (q, r) := r.ss 4
+  let (nwl, r) := r.n
+  let (wls, _) := r.ss nwl
+  let sp : Policy.Sp := ⟨q.getD 0 "", q.getD 1 "", q.getD 2 "", q.getD 3 "" == "1"⟩
+  let c : Policy.Call := ⟨[sp], [], wls, false, fb == 1⟩
+  match Policy.wavelengthLookup Cherab.Gen.OpenAdasPolicy.wavelengthPolicy c (Src.raw sp.param) with
+  | none => "unknown"
+  | some none => "raises:RuntimeError"
+  | some (some sym) => "ok:" ++ sym
+
+def step (ts : List String) : String :=
+  match ts with
+  | "rate" :: rest => runRate rest
+  | "wl" :: rest => runWavelength rest
+  | "pol" :: rest => runPolicy rest
+  | ["null"] => showOut (nullRate : Out Float)
+  | ["conv", x, w, cf] => fF (photonToJ (pF cf) (pF x) (pF w))
+  | _ => "bad-op"
+
 def main : IO UInt32 := do
-  loop (stateless fun ts => " ".intercalate ts) (← IO.getStdin) (← IO.getStdout) ()
+  loop (stateless step) (← IO.getStdin) (← IO.getStdout) ()
   return 0
